@@ -97,7 +97,10 @@ def _extract_secrets(
         for header_value in header_values:
             string_key, string_value = header_value.strip().split(" ", 1)
             key = string_key_to_enum[string_key]
-            value = b64decode(string_value)
+            # (validate=True: without it characters outside of the base64
+            # alphabet are skipped, and something that is not base64 at all
+            # would be accepted as a secret)
+            value = b64decode(string_value, validate=True)
             if value == b"":
                 raise ClientSecretsException(
                     "Failed to decode secret {}".format(string_key)
